@@ -1127,8 +1127,14 @@ class Fxp():
         return val
 
     def _round(self, val, method='floor'):
-        if isinstance(val, int) or np.issubdtype(np.array(val).dtype, np.integer) or np.issubdtype(np.array(val).dtype, np.object_):
+        if isinstance(val, int) or np.issubdtype(np.array(val).dtype, np.integer):
             rval = val
+        elif np.issubdtype(np.array(val).dtype, np.object_):
+            # python numbers: integers are kept exact, floats are rounded one by one
+            rval = np.array(val, dtype=object)
+            for idx in np.ndindex(rval.shape):
+                if not isinstance(rval[idx], (int, np.integer)):
+                    rval[idx] = self._round(np.array(rval[idx], dtype=float), method=method)
         elif method == 'around':
             rval = np.around(val)
         elif method == 'floor':
